@@ -461,6 +461,26 @@ def generate(seed, tier="quick"):
         cer = make_cer(cid, rc={k: rnd.choice(STATES) for k in rc}, fc={k: rnd.random() < 0.5 for k in fcs}, hints=hints,
                        packages=packages)
         requests.append({"rid": cid, "start": rnd.choice([0, 0, 1, 3]), "ops": ops, "cer": cer})
+    # exotic white space (no-break, em, ideographic, thin space, vertical tab, form feed, CR LF) in place of blanks: a
+    # string of its own for both parsers, whatever a normalising hook or cache key makes of it - before and after the
+    # cache is saturated. Added after everything else from a stream of its own: the other draws stay what they were.
+    exo = rng(seed, "c11-exotic")
+    if exo.random() < (0.6 if flood else 0.12):
+        candidates = [e for e in pool if " " in e["text"] and e["grammar"] in ("cond", "ahb")]
+        if candidates:
+            entry = exo.choice(candidates)
+            space = exo.choice(["\xa0", "\u2003", "\u3000", "\u2009", "\x0b", "\x0c", "\r\n"])
+            pool.append({"grammar": entry["grammar"], "text": entry["text"].replace(" ", space, exo.choice([1, 2, 9])),
+                         "evals": ["resolve", "resolve_raw", "keys"]})
+            target, code = len(pool) - 1, "P" if entry["grammar"] == "cond" else "A"
+            for position, request in enumerate(requests):
+                if position == 0 or exo.random() < 0.5:
+                    ops = request["ops"]
+                    ops.insert(exo.randrange(len(ops) + 1), [code, target])
+                    if exo.random() < 0.4:
+                        ops.insert(exo.randrange(len(ops) + 1), ["R", exo.choice(["resolve", "resolve_raw"]), target])
+            if flood:
+                requests[0]["ops"].append([code, target])  # (once more after the flood, whenever that was)
     world = {
         "flavour": "sim",
         "rc_keys": rc,
